@@ -1,4 +1,5 @@
-// C45: CablePath with 0-2 via points and no surface obstacles, CableSpring. args: <treeSpec> <nvia>
+// C45: CablePath with 0-2 via points and no surface obstacles, CableSpring. args: <treeSpec> <nvia> [path|span]
+// "span": the same cable through the newer CableSubsystem/CableSpan API (no obstacles, via points only; no spring element).
 // origin on body 1, termination on the last body, via points on Ground / intermediate bodies; every station, the spring
 // parameters and the test tension are symbolic.
 #include "common.h"
@@ -9,6 +10,42 @@ int main(int argc, char** argv) {
         buildTree(M, argOr(argc, argv, 1, "Pin:0,Pin:1"), false);
         int nvia = atoi(argOr(argc, argv, 2, "1").c_str());
         int nbm = (int)M.bodies.size() - 1;      // number of moving bodies
+        if (argOr(argc, argv, 3, "path") == "span") {
+            CableSubsystem cs(M.system);
+            Vec3 so = inV3("st_o", Vec3(0.25, 0.125, -0.375));
+            Vec3 st = inV3("st_t", Vec3(-0.125, 0.5, 0.25));
+            std::vector<int> obsBody; std::vector<Vec3> obsStation;
+            CableSpan span(cs, M.bodies[1].getMobilizedBodyIndex(), so, M.bodies[nbm].getMobilizedBodyIndex(), st);
+            obsBody.push_back(1); obsStation.push_back(so);
+            for (int i = 0; i < nvia; ++i) {
+                int b = (i == 0) ? 0 : std::max(1, nbm - 1);
+                Vec3 sv = inV3(S("st_v", i), Vec3(0.5 + 0.25 * i, -0.625, 0.375 - 0.5 * i));
+                span.addViaPoint(M.bodies[b].getMobilizedBodyIndex(), sv);
+                obsBody.push_back(b); obsStation.push_back(sv);
+            }
+            obsBody.push_back(nbm); obsStation.push_back(st);
+            State s = initState(M);
+            M.system.realize(s, Stage::Velocity);
+            int nq = s.getNQ(), nb = M.matter.getNumBodies();
+            symfp::note("nq", std::to_string(nq)); symfp::note("nb", std::to_string(nb));
+            symfp::note("npts", std::to_string((int)obsBody.size())); symfp::note("api", "span");
+            outVec("qdot", s.getQDot());
+            for (int i = 0; i < (int)obsBody.size(); ++i) outV3(S("P", i), M.bodies[obsBody[i]].findStationLocationInGround(s, obsStation[i]));
+            out("L", span.calcLength(s));
+            out("Ldot", span.calcLengthDot(s));
+            Real T = in("T", 1.5, "lin");
+            out("power_T", span.calcCablePower(s, T));
+            Vector_<SpatialVec> F(nb, SpatialVec(Vec3(0), Vec3(0)));
+            span.applyBodyForces(s, T, F);
+            symfp::note("T_positive", symfp::value(T) > 0 ? "1" : "0");
+            for (int b = 0; b < nb; ++b) {
+                outSV(S("F", b), F[b]);
+                const MobilizedBody& mb = M.matter.getMobilizedBody(MobilizedBodyIndex(b));
+                outSV(S("V", b), mb.getBodyVelocity(s));
+                outV3(S("O", b), mb.getBodyOriginLocation(s));
+            }
+            return;
+        }
         CableTrackerSubsystem cables(M.system);
         std::vector<int> obsBody;                // body index (in M.bodies) of every path point, in path order
         std::vector<Vec3> obsStation;
